@@ -5,7 +5,9 @@ C++ store holds Python's values; inferred type = compiler's type on tame express
 Expressions include the builtin calls abs / min / max / int() / float() / bool(): typed by `_BUILTIN_CALL_RETURN_TYPES` (re-extracted
 every run into Gen/Types.lean, obligations `gen_builtin_*` in GenOb/Types.lean), evaluated in C++ as the Arduino macros / static_casts.
 Ties: T — declared C++ types in the emission vs the model's block-structured `declareT`; S_py — model Python store vs CPython on
-straight-line programs; S_c — model C++ store vs values printed by the compiled firmware; mergeReturn vs emitted return types.
+straight-line programs; S_c — model C++ store vs values printed by the compiled firmware; mergeReturn vs emitted return types;
+function variants — Lang/TypesFun.lean's call model (Props/C02Fun.lean: call_preserves_value, variant_per_signature, witnesses) vs the emitted
+definitions of a helper (result type, parameter types, declared locals) and the results CPython / the firmware print for every call.
 Oracle E: values printed by the compiled firmware vs CPython for block-structured scripts mixing bool/int/float/str in every
 order (top level, branches, loops), classified by the model's TypeStable verdict; a dedicated stream of builtin calls (tame shapes must
 agree; a float operand to abs/min/max must come out as K02e `types:builtin-float-result` and nothing else)."""
@@ -26,7 +28,12 @@ TRUSTED = [
     "exact arithmetic (ordered field) in the theorems; float32/float64 rounding is seen only through the ties (dyadic constants, 1e-5 relative tolerance on firmware floats)",
     "mock core + host g++ (32-bit int): AVR's 16-bit int range is a separate side condition",
     "builtin calls abs/min/max/int()/float()/bool() ARE in the expression model (mock core's macros = Arduino.h's; `_BUILTIN_CALL_RETURN_TYPES` regenerated, gen_builtin_*); "
-    "calls of user-defined helper functions, lists/len() and str() are not: parameter/return typing is checked by the mergeReturn tie and the end-to-end oracle only",
+    "lists/len() and str() are not",
+    "helper functions (W8, Lang/TypesFun.lean, Props/C02Fun.lean): non-recursive helpers in structured form (straight-line body, then any one of the return expressions) ARE modelled — "
+    "per-signature parse, parameters declared with the type of their LAST assignment, locals with their first, result = mergeReturn, arguments and the returned value converted; "
+    "tied by `function variants` (emitted definitions of fn, CPython and firmware results per call).  Trusted there: C++ overload resolution picks the variant the parser selected "
+    "(call sites pass variables of the exact types; float-literal call sites are K06c); one call signature per helper whose body re-types a parameter (otherwise the stored body "
+    "depends on the order of the requests); recursion, helpers calling helpers, branches/loops inside bodies, globals read in bodies stay with the end-to-end oracles only",
     "int()/float() of a str operand and min/max of two strs evaluate to `none` in the model (numeral parsing / string ordering not modelled; never generated)",
 ]
 DECL_RE = re.compile(r"^\s*(int|float|bool|String)\s+(\w+)\s*(=|;)", re.M)
@@ -257,8 +264,200 @@ def function_hoists(ctx):
             ctx.fail("types:function-recursive-variant" if "d - 1" in src else "types:function-hoisted-local", f"firmware prints {bad[1]!r} where Python prints {bad[0]!r}", replay)
 
 
+# ---- W8: helper functions in the type-assignment model (Lang/TypesFun.lean, Props/C02Fun.lean) -------------------------------------------
+FN_DEF_RE = re.compile(r"^(\w+) fn\(([^)]*)\) \{\n(.*?)^\}", re.M | re.S)
+FN_LOCAL_RE = re.compile(r"^\s+(int|float|bool|String)\s+(\w+)\s*(=|;)", re.M)
+LIT = {"int": lambda v: ("i", v), "float": lambda v: ("f", v), "bool": lambda v: ("b", v)}
+
+
+def model_val(txt):
+    if txt == "none":
+        return None
+    if txt.startswith("i"):
+        return int(txt[1:])
+    if txt.startswith("f"):
+        return struct.unpack(">d", bytes.fromhex(txt[1:]))[0]
+    if txt.startswith("b"):
+        return 1 if txt == "bT" else 0
+    return bytes.fromhex(txt[2:]).decode()
+
+
+def fn_sexp(ps, body, rets):
+    return f"(fn (ps {' '.join(ps)}) (p {tygen.sx_block(body)}) (rets {' '.join(tygen.sx_e(r) for r in rets)}))"
+
+
+def fn_source(ps, body, rets):
+    lines = ["def fn(" + ", ".join(ps) + "):"] + (tygen.py_block(body, 1) if body else [])
+    for j, r_ in enumerate(rets[:-1]):
+        lines += [f"    if k == {j}:", f"        return {tygen.py_e(r_)}"]
+    lines.append(f"    return {tygen.py_e(rets[-1])}")
+    return lines
+
+
+def gen_helper(rng):
+    """a helper in structured form with 1-3 typed parameters + the selector `k` (which return is reached), stable under `sig` by construction:
+    kept mode never assigns a parameter; rebind mode first re-binds parameters to a wider or the same type (the resolved type is the last one)"""
+    g = tygen.TyGen(rng, builtins=rng.random() < 0.3)
+    np_ = rng.randint(1, 3)
+    ps = ["u", "v", "w"][:np_]
+    sig = [rng.choice(["int", "float", "bool"]) for _ in ps]
+    sc = {"int": ["k"], "float": [], "bool": [], "str": []}
+    for p_, t in zip(ps, sig):
+        sc[t] = sc[t] + [p_]
+    mode = "kept" if rng.random() < 0.6 else "rebind"
+    body = []
+    if mode == "rebind":
+        order = rng.sample(ps, rng.randint(1, len(ps)))
+        for i_, p_ in enumerate(order):
+            cur = next(c for c in ("int", "float", "bool") if p_ in sc[c])
+            to = rng.choice({"int": ["int", "float", "float"], "float": ["float"], "bool": ["bool", "int", "float"]}[cur])
+            # the definition types a parameter with its LAST type everywhere: an expression may read only parameters that already have it
+            later = set(order[i_ + 1:]) | ({p_} if to != cur else set())
+            e = g.expr(to, {c: [n for n in sc[c] if n not in later] for c in sc})
+            if rng.random() < 0.6 and to != "bool":       # `p = p * 0.5`, `p = p + 1`: the usual shape
+                e = (rng.choice(["add", "mul", "sub"]), ("v", p_), ("f", rng.choice(tygen.FLOATS)) if to == "float" else ("i", rng.randint(1, 4)))
+            body.append(("as", p_, e))
+            sc[cur] = [n for n in sc[cur] if n != p_]
+            sc[to] = sc[to] + [p_]
+    for name in ["s", "t"][:rng.randint(0, 2)]:
+        c = rng.choice(["int", "float", "bool"])
+        body.append(("as", name, g.expr(c, sc)))
+        sc[c] = sc[c] + [name]
+        if rng.random() < 0.3:
+            body.append(("as", name, g.expr(c, sc)))
+    rets = [g.expr(rng.choice(["int", "float", "bool"]), sc) for _ in range(rng.randint(1, 3))]
+    return ps + ["k"], sig, mode, body, rets
+
+
+def arg_value(rng, t):
+    return {"int": lambda: rng.randint(-9, 9), "float": lambda: rng.choice(tygen.FLOATS + [-0.75, -2.5]), "bool": lambda: rng.random() < 0.5}[t]()
+
+
+# pinned: the witnesses of Props/C02Fun.lean on the real transpiler (ps, body, rets, argument types, argument values, theorem)
+FN_WITNESSES = [
+    (["v", "k"], [("as", "v", ("mul", ("v", "v"), ("f", 0.5)))], [("v", "v")], ["int"], [3], "param_widening_rebinding_is_sound"),
+    (["v", "k"], [("as", "v", ("mul", ("v", "v"), ("f", 0.5))), ("as", "w", ("v", "v")), ("as", "v", ("i", 1))], [("add", ("v", "w"), ("v", "v"))], ["int"], [3],
+     "param_rebinding_counterexample"),
+    (["v", "k"], [("as", "w", ("v", "v")), ("as", "v", ("i", 1))], [("add", ("v", "w"), ("v", "v"))], ["float"], [2.5], "argument_narrowed_at_call_counterexample"),
+    (["v", "k"], [("as", "t", ("v", "v")), ("as", "v", ("mul", ("v", "v"), ("f", 0.5)))], [("add", ("v", "t"), ("v", "v"))], ["float"], [2.5], "primary_parse_body_counterexample"),
+    (["v", "k"], [], [("s", "a"), ("i", 1)], ["int"], [3], "conflicting_return_types_rejected"),
+]
+
+
+def function_variants(ctx):
+    """tie "function variants (Lang.Ty2 call model vs emitted prototypes and printed results)": helpers in structured form, called with int / float /
+    bool VARIABLES; the model's variant (parameter types, local types, result type) against every emitted definition of `fn`, the model's Python
+    result against CPython and the model's C++ result against the compiled firmware, for the return statement each call reaches"""
+    rng = ctx.rng
+    TIE = "tie function variants (Lang.Ty2 call model vs emitted prototypes and printed results)"
+    head = "from Reduino.Communication import SerialMonitor\nmon = SerialMonitor(9600)\n"
+    helpers = [gen_helper(rng) for _ in range(ctx.n(40, 400))]
+    # round 1: which other call signatures keep a kept-mode helper stable (the generator only guarantees its own)
+    cand = []
+    for ps, sig, mode, body, rets in helpers:
+        alts = []
+        if mode == "kept":
+            for _ in range(2):
+                alt = [rng.choice(["int", "float", "bool"]) for _ in sig]
+                if alt != sig and alt not in alts:
+                    alts.append(alt)
+        cand.append(alts)
+    reqs = [f"ty|fun|{fn_sexp(ps, body, rets)}|(args {' '.join(tygen.sx_e(LIT[t](arg_value(rng, t))) for t in alt)} (i 0))"
+            for (ps, sig, mode, body, rets), alts in zip(helpers, cand) for alt in alts]
+    ans = iter(ctx.lean.drive(reqs)) if reqs else iter([])
+    plans = []
+    for (ps, sig, mode, body, rets), alts in zip(helpers, cand):
+        sigs = [sig]
+        for alt in alts:
+            a = fields(next(ans))
+            if a.get("stable") == "T" and a.get("ret") != "reject":
+                sigs.append(alt)
+        plans.append((ps, sigs, mode, body, rets, None))
+    for ps, body, rets, sig, vals, thm in FN_WITNESSES:
+        plans.append((ps, [sig], "witness", body, rets, (vals, thm)))
+    # round 2: scripts and one model request per call
+    srcs, reqs2, calls_of = [], [], []
+    for ps, sigs, mode, body, rets, wit in plans:
+        lines = fn_source(ps, body, rets)
+        calls, declared = [], set()
+        for sig in sigs:
+            sels = list(range(len(rets))) if sig is sigs[0] else [rng.randrange(len(rets))]
+            for sel in sels + ([rng.randrange(len(rets))] if wit is None else []):
+                vals = wit[0] if wit is not None else [arg_value(rng, t) for t in sig]
+                names = [f"a{j}{t[0]}" for j, t in enumerate(sig)]
+                for n_, t, v in zip(names, sig, vals):
+                    lines.append(f"{n_} = {tygen.py_e(LIT[t](v))}")
+                r_ = f"r{len(calls)}"
+                lines += [f"{r_} = fn({', '.join(names + [str(sel)])})", f"mon.write({r_})"]
+                reqs2.append(f"ty|fun|{fn_sexp(ps, body, rets)}|(args {' '.join(tygen.sx_e(LIT[t](v)) for t, v in zip(sig, vals))} (i {sel}))")
+                calls.append((sig, sel))
+        srcs.append(head + "\n".join(lines) + "\n")
+        calls_of.append(calls)
+    model = iter(ctx.lean.drive(reqs2))
+    outs = [cxx.transpile(s_) for s_ in srcs]
+    it = iter(cxx.run_many(ctx, [(cpp, 0, "") for cpp, e in outs if cpp is not None]))
+    for (ps, sigs, mode, body, rets, wit), src, calls, (cpp, exc) in zip(plans, srcs, calls_of, outs):
+        ms = [fields(next(model)) for _ in calls]
+        replay = {"script": src, "model": [" ".join(f"{k}={v}" for k, v in m.items()) for m in ms][:4]}
+        ctx.case(src, nontrivial=True)
+        ctx.count(f"function-variant:{mode}:{len(sigs)}-signature(s)")
+        res = next(it) if cpp is not None else None
+        if any(m.get("ret") == "reject" for m in ms) or cpp is None:
+            real = "reject:" + (f"{type(exc).__name__}:{exc}" if cpp is None else "accepted")
+            want = "reject:ValueError:conflicting return types" if any(m.get("ret") == "reject" for m in ms) else "accepted"
+            ctx.count("function-variant:rejected (conflicting return types)")
+            if real != want:
+                ctx.tie_diff(TIE, replay, want, real)
+            continue
+        if wit is None and not all(m.get("stable") == "T" for m in ms):
+            ctx.tie_diff("generator invariant (generated helpers are FunStable in the model)", replay, str([m.get("stable") for m in ms]), "")
+            continue
+        # prototypes: every emitted definition of fn is the model's variant of one of the call signatures, and every variant is emitted
+        want_defs = {(m["ret"], tuple(m["params"].split(","))): dict(kv.split(":") for kv in m.get("locals", "").split(",") if ":" in kv) for m in ms}
+        got_defs = {}
+        for mdef in FN_DEF_RE.finditer(cpp):
+            ptypes = tuple(x.strip().split(" ")[0] for x in mdef.group(2).split(",") if x.strip())
+            got_defs[(mdef.group(1), ptypes)] = {m_.group(2): m_.group(1) for m_ in FN_LOCAL_RE.finditer(mdef.group(3))}
+        if got_defs != want_defs:
+            ctx.tie_diff(TIE, replay, f"definitions {sorted(want_defs.items())}", f"definitions {sorted(got_defs.items())}")
+        if res.compile_error:
+            ctx.fail("types:function-variant-does-not-compile", res.compile_error[:300], replay)
+            continue
+        ev, err = pyoracle.run_script(src, 0)
+        if err is not None:
+            ctx.tie_diff("generator invariant (scripts run under CPython)", replay, repr(err), "")
+            continue
+        ctx.cov["traces_validated_against_impl"] += 1
+        pyv = [num_of_py(t) for t in writes(ev)]
+        fwv = [num_of_fw(t) for t in writes(pyoracle.fw_events(res.trace))]
+        if len(pyv) != len(calls) or len(fwv) != len(calls):
+            ctx.tie_diff(TIE, replay, f"{len(calls)} results", f"CPython {len(pyv)}, firmware {len(fwv)}")
+            continue
+        differs = False
+        for (sig, sel), m, a, b in zip(calls, ms, pyv, fwv):
+            mpy, mc = model_val(m["py"].split(";")[sel]), model_val(m["c"].split(";")[sel])
+            ctx.count("function-variant:call:" + ",".join(sig) + "->" + m["ret"])
+            if isinstance(a, int) and abs(a) > 2147483647:
+                break
+            if mpy is None or not same(mpy, a):
+                ctx.tie_diff(TIE + " [Python result]", replay, f"fn{sig} return #{sel} = {mpy!r}", f"{a!r}")
+            if mc is None or not same(mc, b):
+                ctx.tie_diff(TIE + " [C++ result]", replay, f"fn{sig} return #{sel} = {mc!r}", f"{b!r}")
+            if not same(a, b):
+                differs = True
+                if wit is None:
+                    ctx.fail("types:function-variant-stable-helper-differs", f"firmware returns {b!r} where Python returns {a!r} from a helper that is FunStable in the model", replay)
+        if wit is not None:
+            # the machine-checked witnesses: what Python and the device return is what the theorem says (value ties above); the divergence itself
+            # is a C02 violation of the unchanged tree reported with W8 (not yet in KNOWN_FINDINGS.json), so it is counted here, not failed
+            ctx.count(f"function-variant:witness:{wit[1]}:" + ("device-differs-from-Python-as-proved" if differs else "agrees"))
+            expect_diff = "counterexample" in wit[1]
+            if differs != expect_diff:
+                ctx.tie_diff(TIE + " [witness]", replay, f"{wit[1]}: differs={expect_diff}", f"differs={differs}")
+
+
 def run(ctx: Ctx) -> int:
-    ctx.prove(["Reduino.Props.C02", "Reduino.GenOb.Types"])
+    ctx.prove(["Reduino.Props.C02", "Reduino.Props.C02Fun", "Reduino.GenOb.Types"])
     common.fresh_import()
     rng = ctx.rng
     progs = gen_programs(ctx)
@@ -340,6 +539,7 @@ def run(ctx: Ctx) -> int:
                 ctx.fail("types:" + (hz or "unstable").split(":")[0], what, replay)
     functions(ctx)
     function_hoists(ctx)
+    function_variants(ctx)
     # function results: join of all return expressions
     lits = {"int": "1", "float": "2.5", "bool": "True", "String": '"s"'}
     combos = [c for n in (1, 2, 3) for c in itertools.product(lits, repeat=n)]
@@ -358,6 +558,7 @@ def run(ctx: Ctx) -> int:
     ctx.cov["rule"] = ("random block-structured scripts over bool/int/float/str names with builtin calls abs/min/max/int/float/bool among the expressions "
                        "(40% with one injected re-typing hazard, 35% straight-line), a stream where half of the compound expressions are builtin calls "
                        "(every third program with a float operand to abs/min/max), plus every order of 2-3 "
-                       "differently-typed assignments to one name at top level / in a branch / in a loop, plus every return-type combination up to 3 returns; "
+                       "differently-typed assignments to one name at top level / in a branch / in a loop, plus every return-type combination up to 3 returns, "
+                       "plus helpers in structured form (1-3 typed parameters, locals, 1-3 returns of mixed types, parameters kept or re-bound wider) called with int/float/bool variables; "
                        "each compiled and run for one pass against CPython")
     return ctx.finish(TRUSTED, search=None)
